@@ -224,6 +224,15 @@ pub struct Conversation {
     /// the shim leaks, rather than drops, a RowWriter whose row-level call was refused
     #[serde(default)]
     pub forget_on_refusal: bool,
+    /// per execution, in order: how many parameters the shim pulls from the iterator (None = all)
+    #[serde(default)]
+    pub param_takes: Vec<Option<usize>>,
+    /// per result program, in order: Some(tag) = after the program the callback returns Err(tag)
+    #[serde(default)]
+    pub then_fail: Vec<Option<u32>>,
+    /// io::ErrorKind used for injected faults: 0 ConnectionReset, 1 UnexpectedEof, 2 Other, 3 BrokenPipe, 4 TimedOut
+    #[serde(default)]
+    pub fault_kind: u8,
 }
 
 impl Conversation {
@@ -240,6 +249,9 @@ impl Conversation {
             lockstep: false,
             auto_ids: None,
             forget_on_refusal: false,
+            param_takes: vec![],
+            then_fail: vec![],
+            fault_kind: 0,
         }
     }
 }
@@ -373,6 +385,7 @@ pub fn run_with(c: &Conversation, tls: Option<std::sync::Arc<rustls::ServerConfi
     let (bytes, ends, _) = client_stream(c);
     let inbound_len = bytes.len();
     let tr = Transport::new(bytes, c.sched.clone(), c.fault.clone());
+    tr.0.borrow_mut().fault_kind = c.fault_kind;
     if c.lockstep {
         let mut kinds = vec![ReplyKind::OkOrErr];
         kinds.extend(c.cmds.iter().map(|sc| sc.cmd.reply_kind()));
@@ -390,6 +403,8 @@ fn run_inner(c: &Conversation, tls: Option<std::sync::Arc<rustls::ServerConfig>>
         convert_params,
         auto: c.auto_ids.is_some(),
         forget_on_refusal: c.forget_on_refusal,
+        param_takes: c.param_takes.iter().cloned().collect(),
+        then_fail: c.then_fail.iter().cloned().collect(),
         auto_ids: c.auto_ids.clone().unwrap_or_default().into_iter().collect(),
         ..Default::default()
     }));
